@@ -21,7 +21,7 @@ NEED = ["mode_ldaps", "mode_starttls", "result_ok", "result_err", "result_pendin
         "inj_none", "inj_before", "inj_with", "inj_after",
         "hs_trusted", "hs_untrusted", "hs_wrongName", "hs_stall", "hs_close", "hs_garbage",
         "connector_custom_verify_true", "connector_custom_verify_false", "connector_default_verify_true",
-        "connector_default_verify_false", "timeout_none", "timeout_short", "via_dial", "via_stream-last", "via_stream-first",
+        "connector_default_verify_false", "timeout_none", "timeout_short", "via_dial", "via_stream-last", "via_stream-first", "via_unix",
         "ready_verify_true_cert_trusted", "ready_verify_false_cert_untrusted", "ready_verify_false_cert_wrongName",
         "ready_with_injection_real_answer_returned"]
 
